@@ -14,7 +14,7 @@ guards: `Verif.Spec.SvgHazard`; model of `/repo/svg/pathdata.go`: `Verif.Model.S
 -/
 namespace Verif.Props.C05
 open Verif.Spec.SvgPath Verif.Spec.SvgHazard Verif.Model.SvgPath Verif.Proofs.SvgGeom
-open Verif.Proofs.SvgLex Verif.Proofs.SvgParse Verif.Proofs.SvgModel Verif.Proofs.SvgInduct
+open Verif.Proofs.SvgLex Verif.Proofs.SvgParse Verif.Proofs.SvgModel Verif.Proofs.SvgInduct Verif.Model.SvgGuard
 
 /-! ## path_lex_roundtrip: separator elision never merges or splits tokens
 
@@ -182,40 +182,47 @@ theorem copy_geometry_implicit_lineto (rel : Bool) (a b c d : List Char) :
 def path_geometry_full : Prop :=
   ∀ d : List Char, validPath d = true → holds d (shorten d) = true
 
-/-- the scanner-side guards of `path_geometry_partial`, decidable and evaluated by the harness on every
-    generated input (`spec.c05.guards`): the scanner read the whole string (no bad format), its instructions
-    are exactly the commands the specification parses (`scan` vs `parse`: differs only for trailing-dot numbers
-    and invalid data), and every coordinate carries the exact value of its lexeme -/
-def scanGuard (d : List Char) : Bool :=
-  match scan d with
-  | none => false
-  | some r => r.tail.isEmpty && r.instrs.all instrOkB && (parse d == some (instrsCmds r.instrs))
-
 /-- **path_geometry, guarded**: for number printers that keep value and shape (`NumExact`: C08.1 + C08.5),
     every path data string that the scanner reads as the specification does (`scanGuard`) and that has no
     curve command directly after a closepath, a removed zero-length segment or a degenerate curve of its family
-    (`noHazard`; conservative, these cases are handled by look-ahead since the fixes) is minified to path data
+    (`noHazard`; conservative, these cases are handled by look-ahead since the fixes; `mergeZ` drops a closepath
+    letter repeated directly, which `≃` does not see) is minified to path data
     denoting the same absolute segments up to `≃`.  Proof: `shorten_output_parses` (the output parses to the
     chosen groups) and `groups_geometry` (induction over groups and instructions with the cursor, subpath start
     and control points of model / input / output as invariant; one lemma per rewriting stage). -/
 theorem path_geometry_partial (P : NumPr) (hP : NumExact P) (d : List Char)
     (hlen : d.length ≤ maxLen) (hg : scanGuard d = true)
-    (hz : noHazard ((parse d).getD []) = true) :
+    (hz : noHazard (mergeZ ((parse d).getD [])) = true) :
     holds d (shortenWith P d) = true := by
   unfold scanGuard at hg
   cases hscan : scan d with
-  | none => rw [hscan] at hg; simp at hg
+  | none =>
+    -- no command at all: the input is returned unchanged
+    rw [hscan] at hg
+    simp only at hg
+    have hl : ¬ maxLen < d.length := by omega
+    simp only [shortenWith, hl, if_false, hscan, holds]
+    cases hp : parse d with
+    | none => rw [hp] at hg; simp at hg
+    | some ci => simp [equiv]
   | some r =>
     rw [hscan] at hg
     simp only [Bool.and_eq_true, List.isEmpty_iff, List.all_eq_true, beq_iff_eq] at hg
     obtain ⟨⟨htail, hok⟩, hparse⟩ := hg
     have hout := shorten_output_parses_of_contract P (fun s => (hP.cur s).1) (fun v => (hP.alt v).1) d r hscan htail hlen
-    rw [hparse] at hz
-    simp only [Option.getD_some] at hz
-    have hgeo := groups_geometry P hP r.instrs r.lastNext (fun i hi => instrOk_of_B i (hok i hi)) hz
-    unfold holds
-    rw [hparse, hout]
-    simp only [equiv, norm, hgeo, beq_self_eq_true]
+    cases hp : parse d with
+    | none => rw [hp] at hparse; simp at hparse
+    | some ci =>
+      rw [hp] at hparse hz
+      simp only [Option.map_some, Option.some.injEq, Option.getD_some] at hparse hz
+      rw [hparse] at hz
+      have hgeo := groups_geometry P hP r.instrs r.lastNext (fun i hi => instrOk_of_B i (hok i hi)) hz
+      have hm := mergeZ_equiv ci
+      unfold holds
+      rw [hp, hout]
+      simp only [equiv, beq_iff_eq]
+      rw [← hm, hparse]
+      simp only [norm, hgeo]
 
 /-- the guards are satisfiable by a non-trivial path using every kind of rewrite -/
 example : scanGuard "M0 0L5 0 5 0H6C6 5 10 5 10 0S15-5 15 0Q20 5 25 0T35 0A5 5 0 0140 0z".toList = true := by decide +kernel
